@@ -47,6 +47,84 @@ def run(repo, rep, tier):
     r4 = rep.rule('C03.R4', 'header/body agreement')
     r5 = rep.rule('C03.R5', 'typed method parameters')
     r6 = rep.rule('C03.R6', 'unrepresentable characters fail locally')
+    # ---- R1b: enumerated attribute values at the construction sites ---------
+    # (the writer passes the parameter through; what the object model can
+    # hand over is the value set its property setter admits, narrowed by the
+    # branch conditions at the site)
+    from ..valuesets import attr_values, refine
+    from ..cfg import stmt_facts as _sf
+    from .c01 import attr_param as _ap
+    r1b = rep.rule('C03.R1b', 'enumerated attribute values passed at the '
+                   'construction sites are in the DTD enumeration')
+    D0 = dtdmod.load(repo)
+    W0 = X.writers(repo)
+    cons0 = X.constructed_elements(repo)
+    allf = {}
+    for m_ in repo.modules.values():
+        for f_ in m_.all_funcs():
+            allf[(m_.relpath, f_.qualname)] = f_
+    for e_, w_ in sorted(W0.items()):
+        if e_ not in D0.elements:
+            continue
+        for a_, info in sorted(D0.attlists.get(e_, {}).items()):
+            if not isinstance(info['type'], list):
+                continue
+            p_ = _ap(w_, a_)
+            if p_ is None:
+                continue
+            # boolean attributes are lower-cased strings in the writer
+            boolish = set(info['type']) == {'true', 'false'}
+            ps_ = [x for x in w_.init.params if x != 'self']
+            for path_, fq_, line_, call_ in cons0.get(w_.cls.name, []):
+                arg = None
+                if p_ in ps_ and ps_.index(p_) < len(call_.args):
+                    arg = call_.args[ps_.index(p_)]
+                for k_ in call_.keywords:
+                    if k_.arg == p_:
+                        arg = k_.value
+                f_ = allf.get((path_, fq_))
+                if arg is None or f_ is None:
+                    continue
+                if not (isinstance(arg, ast.Attribute) and
+                        isinstance(arg.value, ast.Name) and
+                        arg.value.id == 'self' and f_.cls is not None):
+                    if not isinstance(arg, ast.Constant):
+                        r1b.undecided.append('%s: %s@%s = %s' % (
+                            fq_, e_, a_, norm(arg)))
+                    continue
+                vals = attr_values(repo, f_.cls, arg.attr)
+                if vals is None:
+                    r1b.undecided.append('%s: %s@%s = %s (setter does not '
+                                         'pin the values)' % (
+                                             fq_, e_, a_, norm(arg)))
+                    continue
+                facts_ = ()
+                for st_, (fs_, _t) in _sf(f_.node).items():
+                    if isinstance(st_, (ast.If, ast.For, ast.While, ast.Try,
+                                        ast.With)):
+                        continue
+                    if any(x is call_ for x in ast.walk(st_)):
+                        facts_ = fs_
+                vals = refine(vals, norm(arg), facts_)
+                r1b.sites += 1
+                r1b.functions.add(f_.fq)
+                if boolish:
+                    allowed = {None, True, False}
+                else:
+                    allowed = set(info['type']) | {None}
+                extra = sorted(str(v) for v in vals - allowed)
+                r1b.ob(not extra, '%s|%s@%s' % (fq_, e_, a_),
+                       {'values': sorted(str(v) for v in vals),
+                        'dtd': info['type']})
+                if extra:
+                    rep.finding(r1b, fq_, '%s@%s = %s' % (e_, a_, norm(arg)),
+                                'enum-value', path_, line_,
+                                '%s can be %s here, which the DTD does not '
+                                'allow for %s@%s (%s): the document is not '
+                                'DTD-valid for such an object'
+                                % (norm(arg), extra, e_, a_, info['type']))
+    if r1b.sites < 10:
+        raise AnalysisError('C03.R1b: only %d decided sites' % r1b.sites)
     # the listener's responses: the entity delimited by Content-Length is
     # the whole document (same rule as C17.R6)
     from .c17 import content_length_rule
